@@ -4,7 +4,7 @@
    file selection).  "Exactly once" is FALSE of the faithful model - and of the code: three machine-checked
    witnesses below, replayed against cpppo by props/c18.py and recorded in known_findings.json. *)
 From Coq Require Import ZArith List Bool.
-From CV Require Import Model.History Proofs.History.
+From CV Require Import Model.History Proofs.History Proofs.HistoryOnce.
 Import ListNotations.
 Open Scope Z_scope.
 
@@ -39,6 +39,39 @@ Theorem C18_select_initial : forall files idx target strict best r,
    r = match files with [] => best | _ => Some (idx + length files - 1)%nat end).
 Proof. exact select_before_spec. Qed.
 Print Assumptions C18_select_initial.
+
+(* ---- exactly once, where it holds ----
+   A replay that starts before a well-behaved history begins and then catches up delivers every logged record
+   exactly once, in logged order: the delivered sequence IS the log.  Well-behaved = every file holds at least two
+   records, all register data, timestamps strictly increasing (>= 2 ms apart), every older file ends strictly
+   before every newer one begins - i.e. none of the three recorded shapes.  (Partial: one schedule shape - start
+   before the history, then one catching-up load; other schedules are covered by the correspondence and the
+   universal guarantees above.) *)
+Theorem C18_exactly_once_partial : forall files pre old look t0 T,
+  files = pre ++ [old] -> ordered files -> Forall nice_file files -> 0 <= look ->
+  tgt (first_ts old) (t0 + look) = true ->
+  Forall (Forall (due T look)) files ->
+  concat (snd (replay files look None [t0; T] init)) = HistoryOnce.logged files.
+Proof. exact exactly_once. Qed.
+Print Assumptions C18_exactly_once_partial.
+
+Definition h_nice : list file :=
+  [ [Rec 500 (PRegs [(40001, 5)]); Rec 600 (PRegs [(40002, 6)])];
+    [Rec 300 (PRegs [(40001, 3)]); Rec 350 (PRegs [(40003, 9)]); Rec 400 (PRegs [(40001, 4)])];
+    [Rec 100 (PRegs [(40001, 1); (40002, 1)]); Rec 250 (PRegs [(40002, 2)])] ].
+Example C18_exactly_once_premises_hold :
+  ordered h_nice /\ Forall nice_file h_nice /\ tgt (first_ts (last h_nice [])) (50 + 20) = true /\
+  Forall (Forall (due 1000 20)) h_nice /\
+  concat (snd (replay h_nice 20 None [50; 1000] init)) = HistoryOnce.logged h_nice.
+Proof.
+  split; [|split; [|split; [|split]]].
+  - simpl. repeat split; repeat constructor.
+  - unfold nice_file, is_regs. repeat econstructor.
+  - reflexivity.
+  - repeat constructor.
+  - vm_compute. reflexivity.
+Qed.
+Print Assumptions C18_exactly_once_premises_hold.
 
 (* ---- the full statement, and why it is refuted ---- *)
 Definition data_of (f : file) : list event :=
